@@ -27,6 +27,7 @@ LEVEL_TEXT = ("Kernel-checked (Mathlib matrices over a field): Sigma = (I-B)^-T 
 LEVEL_NOTE = "Trusted: Lean kernel + standard axioms; model; harness; numpy/sklearn linear algebra."
 TECHNIQUE = "Lean 4 proof (covariance fixed point, Schur complement) + differential check against an exact rational linear-algebra model"
 TOL = 1e-6
+ROUND_EPS = 1e-7   # 20 x the half-ulp (5e-9) of the 8-decimal rounding in to_joint_gaussian, times the amplification computed per case
 
 
 def gen_lg(rng, tier):
@@ -110,17 +111,31 @@ def run_joint(case, drv):
             return fail(f"predict returned variables {vars_}", **tags)
         a = [pos[names.index(x)] for x in vars_]
         b = [pos[v] for v in obs]
+        # to_joint_gaussian rounds the joint to 8 decimals before predict conditions on it; a perturbation eps of every entry
+        # of (mu, Sigma) moves the conditional mean by at most eps (1+|S^-1 d|_1)(1+|A S^-1|_inf) and the conditional
+        # covariance by at most eps (1+|A S^-1|_inf)^2 (first order), so the tolerance carries that amplification.
+        Mf = np.array([float(Fraction(x)) for x in r["mean"]])
+        Cf = np.array([[float(Fraction(x)) for x in rw] for rw in r["cov"]])
+        Sinv = np.linalg.pinv(Cf[np.ix_(b, b)])
+        AS = Cf[np.ix_(a, b)] @ Sinv
+        amp_c = (1 + np.abs(AS).sum(axis=1).max()) ** 2
+        # float64 inversion of S: relative error ~ cond(S) * 2^-53 on A S^-1 A^T and A S^-1 d (backward-stable solve), x10 safety
+        kappa = float(np.linalg.cond(Cf[np.ix_(b, b)]))
+        fl_c = 1e-15 * kappa * (np.abs(AS @ Cf[np.ix_(b, a)]).max() + np.abs(Cf[np.ix_(a, a)]).max())
         for k, row in enumerate(case["rows"]):
             mc = drv.call("gauss_condition", mean=r["mean"], cov=r["cov"], a=a, b=b, xb=[row[v] for v in obs])
             if not mc["inv_ok"]:
                 return fail("MODEL: Gauss-Jordan inverse failed its own A*inv(A)=I validation")
+            dvec = np.array([float(Fraction(row[v])) for v in obs]) - Mf[b]
+            amp_m = (1 + np.abs(Sinv @ dvec).sum()) * (1 + np.abs(AS).sum(axis=1).max())
+            fl_m = 1e-15 * kappa * float((np.abs(AS) @ np.abs(dvec)).max())
             for i in range(len(a)):
-                if abs(mu_c[k][i] - float(Fraction(mc["mean"][i]))) > TOL * max(1, abs(float(Fraction(mc["mean"][i])))):
+                if abs(mu_c[k][i] - float(Fraction(mc["mean"][i]))) > TOL * max(1, abs(float(Fraction(mc["mean"][i])))) + ROUND_EPS * amp_m + fl_m:
                     return fail(f"predict: conditional mean of {vars_[i]} = {mu_c[k][i]}, Gaussian conditioning gives "
                                 f"{float(Fraction(mc['mean'][i]))} (missing {vars_})", **tags)
                 for j in range(len(a)):
                     exp = float(Fraction(mc["cov"][i][j]))
-                    if abs(cov_c[i][j] - exp) > TOL * max(1, abs(exp)):
+                    if abs(cov_c[i][j] - exp) > TOL * max(1, abs(exp)) + ROUND_EPS * amp_c + fl_c:
                         return fail(f"predict: conditional covariance ({vars_[i]},{vars_[j]}) = {cov_c[i][j]}, Schur complement gives {exp} "
                                     f"(missing {vars_})", **tags)
     return ok(nontrivial=bool(case["edges"]) and len(miss) >= 2, **tags)
